@@ -385,6 +385,66 @@ pub fn gen07(ctx: &Ctx) {
         steps.extend(exchange(&mut rng, &probe(), false));
         finish_case(&mut out, 4096, steps, &format!("pipelined/{k}"));
     }
+    // pipelining against small head limits: a chunked first request whose body runs past the first N bytes of its segment (so the
+    // body reader goes to the socket with its 4 KiB read-ahead), followed in the same segment by more than N bytes of further
+    // requests - the carry is then longer than the head limit (round-6 seeds cut, dropped or rejected it there); also a carried
+    // head of N+1 bytes (431 all the same), carried requests with fixed-length bodies, and long pipelines of small requests
+    for &n in &[64usize, 256, 1024, 4096, 16384] {
+        for variant in 0..(if ctx.thorough { 12 } else { 4 }) {
+            let blen = n + 40 + rng.below(200) as usize;
+            let payload: Vec<u8> = (0..blen).map(|i| b'a' + (i % 26) as u8).collect();
+            let first = Req { method: "POST", path: (*rng.pick(&["/all?first", "/none", "/first", "/k/5"])).to_string(), fields: vec![("Transfer-Encoding".to_string(), b"chunked".to_vec())], body: chunked(&payload, &mut rng) };
+            let mut all: Vec<u8> = first.head(); all.extend(&first.body);
+            let mut nreq = 1;
+            // further requests: at least N + 100 bytes of them
+            let start = all.len();
+            while all.len() - start < n + 100 || nreq < 3 {
+                let r = match rng.below(4) {
+                    0 => { let b: Vec<u8> = (0..rng.range(1, 60)).map(|i| b'A' + (i % 26) as u8).collect(); Req { method: "POST", path: format!("/all?n={nreq}"), fields: vec![("Content-Length".to_string(), b.len().to_string().into_bytes())], body: b } }
+                    1 => Req { method: "GET", path: format!("/none?n={nreq}"), fields: vec![], body: vec![] },
+                    2 => Req { method: "POST", path: format!("/all?c={nreq}"), fields: vec![("Transfer-Encoding".to_string(), b"chunked".to_vec())], body: chunked(b"carried chunked body", &mut rng) },
+                    _ => Req { method: "GET", path: format!("/nosuch/{nreq}"), fields: vec![], body: vec![] },
+                };
+                if r.head().len() + 4 > n { if n <= 64 { let g = Req { method: "GET", path: "/".into(), fields: vec![], body: vec![] }; all.extend(g.head()); nreq += 1; } continue; }
+                all.extend(r.head()); all.extend(&r.body); nreq += 1;
+                if nreq > 400 { break; }
+            }
+            // (only where the whole tail is certain to have been read together with the first body - limits of 64 / 256 and a
+            // tail below 3000 bytes: a server that closes while bytes are still unread in its socket resets the connection,
+            // and a reset discards the answers the client has not read yet)
+            if variant % 4 == 3 && n <= 256 && all.len() - start < 2800 {
+                // the last carried head is one byte too long for the limit: 431 and close, whatever was carried
+                let mut r = Req { method: "GET", path: "/none".into(), fields: vec![], body: vec![] };
+                let base = r.head().len(); if n + 1 > base + 5 { r.fields.insert(0, ("x".into(), vec![b'p'; n + 1 - base - 5])); all.extend(r.head()); nreq += 1; }
+            }
+            let style = [0u64, 1, 0, 0][variant % 4];
+            let mut steps: Vec<String> = cut(&mut rng, &all, style).iter().map(|s| format!("D{}", hex(s))).collect();
+            for _ in 0..nreq { steps.push("R".into()); }
+            finish_case(&mut out, n, steps, &format!("pipelined-small-limit/N={n}"));
+        }
+    }
+    // a close signalled by the response (or by a hook answer) with a further request pipelined behind it: nothing more is answered
+    for first in ["/close", "/closer", "/none+close", "/none+hookclose", "/err", "/errafter"] {
+        for _ in 0..(if ctx.thorough { 6 } else { 2 }) {
+            let (path, fields): (&str, Vec<(String, Vec<u8>)>) = match first {
+                "/none+close" => ("/none", vec![("Connection".to_string(), b"close".to_vec())]),
+                "/none+hookclose" => ("/none", vec![("x-hook".to_string(), b"answer-close".to_vec())]),
+                p => (p, vec![]) };
+            let r1 = Req { method: "GET", path: path.into(), fields, body: vec![] };
+            let r2 = Req { method: "GET", path: "/none?behind".into(), fields: vec![], body: vec![] };
+            let mut all = r1.head(); all.extend(r2.head());
+            // (one segment: bytes that arrive after the server has closed would reset the connection)
+            let mut steps: Vec<String> = vec![format!("D{}", hex(&all))];
+            steps.push("R".into()); steps.push("R".into());
+            finish_case(&mut out, 4096, steps, &format!("pipelined-behind-close{first}"));
+        }
+    }
+    // a carried prefix that is already malformed but has no blank line yet: 400 at once, not "incomplete"
+    {
+        let mut all = Req { method: "GET", path: "/none?a".into(), fields: vec![], body: vec![] }.head();
+        all.extend(b"GET /b HTTP/1.1\r\nthis header line has no colon\r\n");
+        finish_case(&mut out, 4096, vec![format!("D{}", hex(&all)), "R".into(), "R".into()], "pipelined-malformed-prefix");
+    }
     // hold histories: request i answers before its body is read; the rest of its body and the whole next
     // request reach the server in one piece while the handler is held
     let m = if ctx.thorough { 600 } else { 60 };
